@@ -994,9 +994,15 @@ func (c *AbstractVariantOperations) GetElement(
 	index := int(value2.AsInteger())
 
 	if value1.Type() == Array {
+		if index < 0 || index >= value1.Length() {
+			return nil, errors.NewBadRequestError("", "INDEX_OUT_OF_RANGE", "Index is out of range")
+		}
 		return value1.GetByIndex(index), nil
 	} else if value1.Type() == String {
 		runes := []rune(value1.AsString())
+		if index < 0 || index >= len(runes) {
+			return nil, errors.NewBadRequestError("", "INDEX_OUT_OF_RANGE", "Index is out of range")
+		}
 		result.SetAsString(string(runes[value2.AsInteger()]))
 		return result, nil
 	}
